@@ -31,97 +31,143 @@ def check(chk):
 
 
 def r131(chk, m):
-    R = chk.rule('R13.1', 'exactly-once routing: per child, its rendering is either written to the child\'s own file (and the loop goes '
-                 'on) or appended to the parent\'s output - exactly one, the file branch taken iff child.filename; text and .str '
-                 'children are appended once', 1)
-    fn = m.func(REN, 'Renderable.__str__')
-    chk.analysed(fn)
-    loops = [n for n in M.walk_no_nested(fn.node) if isinstance(n, ast.For) and text(n.target) == 'child']
-    need(len(loops) == 1, 'Renderable.__str__: child loop not found')
-    loop = loops[0]
-    child = A.Sym('CHILD', truthy=True, attrs={'distinct': True})
+    from . import renderheap
+    renderheap.render_rules(chk, m, 'R13.1', 'routing')
 
-    class H(A.Hooks):
+
+def fscene(m, level=1, split=2, override=None, config=True, label='sec-id'):
+    """A renderer with an empty memo and a scripted name generator, and one sectioning node."""
+    from . import domheap as D
+    from . import renderheap as RH
+    Ren = m.cls(REN, 'Renderable')
+    doc = A.Obj('document', {'userdata': {'jobname': 'job'}, 'config': {'files': {'bad-chars': ': ', 'bad-chars-sub': '-'}}})
+    gen = A.Obj('generator', {'variables': {}})
+    renderer = A.Obj('renderer', {'files': {}, 'level': split, 'fileExtension': '.html', 'newFilename': gen})
+    attrs = {'level': level, 'nodeName': 'section', 'ownerDocument': doc, 'title': 'A title', '__closed': True, 'parentNode': None}
+    if label:
+        attrs['@id'] = label          # (a \\label; without one the id property generates an id on first use)
+    if config:
+        attrs['config'] = doc.attrs['config']
+    if override is not None:
+        attrs['filenameoverride'] = override
+    # (an object that is not a document node has no `config`: the mixed-in property then yields no name)
+    node = A.Obj('sec', attrs, cls=m.cls('plasTeX', 'Macro') if config else Ren)
+    return renderer, node
+
+
+class NameHooks(object):
+    pass
+
+
+def frun(m, fn, env, max_iter=12):
+    from . import domheap as D
+    from . import renderheap as RH
+    Ren = m.cls(REN, 'Renderable')
+
+    class H(RH.RenderHooks):
+        def lookup(self, interp, name, state):
+            if name == 'idgen':
+                return state.env.setdefault('__idgen', A.Iter(['generated-id-%d' % i for i in range(1, 9)]))
+            return None
+
         def call(self, interp, node, fname, args, kwargs, state):
-            if fname in ('func',) and args and args[0] is child:
-                return A.Sym('VAL', truthy=True)
-            if fname == 'type':
-                return A.Sym('T')
-            return None
-
-        def decide(self, interp, test, state):
-            t = text(test)
-            if t == 'type(val) is not str':
-                return False
-            if t in ('directory and (not os.path.isdir(directory))', 'directory and not os.path.isdir(directory)'):
-                return False
-            return None
-
-        def keep(self, ev):
-            return ev[0] in ('call', 'assume', 'continue')
-    it = A.Interp(model=m, scope=fn, hooks=H(), max_iter=1, exc_edges=False)
-    outs = it.block(loop.body, [A.State({'child': child, 's': A.Sym('S'), 'r': A.Sym('R', truthy=True)})])
-    bad = []
-    n = 0
-    for kind in ('fall', 'continue', 'break', 'return'):
-        for s, v in outs.get(kind, []):
-            n += 1
-            ass = {e[1]: e[2] for e in s.trace if e[0] == 'assume'}
-            writes = [e for e in s.trace if e[0] == 'call' and e[1] == 'f.write']
-            apps = [e for e in s.trace if e[0] == 'call' and e[1] == 's.append']
-            fn_true = ass.get('child.filename')
-            is_text = ass.get('child.nodeType == Node.TEXT_NODE')
-            if kind in ('break', 'return'):
-                bad.append('the loop is left early')
-                continue
-            if is_text or ass.get('uni is not None'):
-                if len(apps) != 1 or writes:
-                    bad.append('a text/.str child is appended %d times, written %d times' % (len(apps), len(writes)))
-                continue
-            if len(writes) + len(apps) != 1:
-                bad.append('rendering disposed of %d times (written %d, appended %d) with child.filename=%s'
-                           % (len(writes) + len(apps), len(writes), len(apps), fn_true))
-            elif bool(writes) != bool(fn_true):
-                bad.append('child.filename=%s but the rendering is %s' % (fn_true, 'written to a file' if writes else 'appended to the parent'))
-            elif writes and kind != 'continue':
-                bad.append('after writing the file the rendering also flows on')
-    chk.paths += n
-    chk.verdict(R, 'Renderable.__str__ routes every child rendering exactly once', not bad and n >= 4,
-                '; '.join(sorted(set(bad))), chk.where(fn, loop), '%d paths' % n)
+            if fname == 'Filenames' and args and isinstance(args[0], str):
+                return A.Sym('func:override-generator', truthy=True, attrs={'spec': args[0]})
+            callee = state.env.get(node.func.id) if isinstance(node.func, ast.Name) else None
+            if isinstance(callee, A.Sym) and callee.label == 'func:override-generator' and not args:
+                state.env.setdefault('__renderlog', []).append(('override', callee.attrs['spec']))
+                return '%s.html' % callee.attrs['spec']
+            return RH.RenderHooks.call(self, interp, node, fname, args, kwargs, state)
+    it = A.Interp(model=m, scope=fn, hooks=H(m, Ren), max_iter=max_iter, exc_edges=False, inline=14, heap=True, precise_exc=True, max_states=20000)
+    it._property_ok = True
+    outs = it.run_function(fn, env=env)
+    if it.imprecise:
+        raise D.Imprecise('; '.join(sorted(set(it.imprecise))[:3]))
+    if it.unknown_branches:
+        raise D.Imprecise('the outcome of a test is not determined on this heap: ' + '; '.join(sorted(set(it.unknown_branches))[:3]))
+    return outs
 
 
 def r132(chk, m):
-    R = chk.rule('R13.2', 'filename memoisation: every name obtained from a generator is stored under r.files[self] on the same path '
-                 'and the memo is consulted first', 2)
-    fn = m.func(REN, 'Renderable.filename')
+    from . import domheap as D
+    R = chk.rule('R13.2', 'the file name of a node interpreted on a heap with a scripted name generator: the first access issues one name '
+                 'and remembers it for the node, a second access returns the same name without asking the generator again; a node '
+                 'below the split level or without configuration gets no name and the generator is not touched; an override is used '
+                 'as given and remembered; a generated id (one that depends on what was processed before) never becomes part of a name', 6)
+    Ren = m.cls(REN, 'Renderable')
+    fn = Ren.properties.get('filename', {}).get('get')
+    need(fn is not None, 'Renderable.filename not found')
     chk.analysed(fn)
-    gens = [c for c in M.calls_in(fn.node) if M.call_name(c) in ('newFilename', 'r.newFilename')]
-    need(len(gens) >= 2, 'Renderable.filename: generator calls not found')
-    ok = True
-    for c in gens:
-        st = [n for n in M.walk_no_nested(fn.node) if isinstance(n, ast.Assign) and any(x is c for x in ast.walk(n))]
-        ok = ok and len(st) == 1 and any(text(t) == 'r.files[self]' for t in st[0].targets)
-    chk.verdict(R, 'every issued name is memoised', ok,
-                'a call of the filename generator whose result is not stored in r.files[self]: a second access would issue a second '
-                'name, so links and files diverge', chk.where(fn))
-    first = [s for s in fn.node.body if isinstance(s, ast.Try)]
-    ok = bool(first) and text(first[0].body[0]) == 'return r.files[self]'
-    chk.verdict(R, 'memo consulted first', ok, 'Renderable.filename must start by returning r.files[self] when present', chk.where(fn))
+
+    def twice(renderer, node):
+        out = set()
+        for kind, s, v in frun(m, fn, {'self': node, 'Node.renderer': renderer}):
+            if kind != 'return':
+                out.add('first access raises %s' % (v,))
+                continue
+            r2, n2 = s.env['Node.renderer'], s.env['self']
+            issued1 = s.env.get('__nfiles', 0)
+            memo1 = r2.attrs['files'].get(n2) if isinstance(r2.attrs.get('files'), dict) else 'TOP'
+            for kind2, s2, v2 in frun(m, fn, {'self': n2, 'Node.renderer': r2, '__nfiles': issued1}):
+                if kind2 != 'return':
+                    out.add('second access raises %s' % (v2,))
+                    continue
+                gen = r2.attrs.get('newFilename')
+                vs = gen.attrs.get('variables') if isinstance(gen, A.Obj) else None
+                out.add('first %r (names issued %d, remembered %r), second %r (names issued %d)%s'
+                        % (v, issued1, memo1, v2, s2.env.get('__nfiles', 0),
+                           (' variables %s' % ' '.join('%s=%s' % kv for kv in sorted(vs.items()))) if isinstance(vs, dict) and vs else ''))
+        return out
+    ok1 = "first 'file0.html' (names issued 1, remembered 'file0.html'), second 'file0.html' (names issued 1)"
+    cases = [('a labelled node that makes a file', dict(level=1, split=2), ok1 + ' variables id=sec-id name=section title=A title'),
+             ('a node at the split level', dict(level=2, split=2), ok1 + ' variables id=sec-id name=section title=A title'),
+             ('a node without a label (its id is generated)', dict(level=1, split=2, label=None), ok1 + ' variables name=section title=A title'),
+             ('a node below the split level', dict(level=3, split=2), 'first None (names issued 0, remembered None), second None (names issued 0)'),
+             ('a node without configuration', dict(level=1, split=2, config=False), 'first None (names issued 0, remembered None), second None (names issued 0)'),
+             ('a node with a file name override', dict(level=3, split=2, override='custom'),
+              "first 'custom.html' (names issued 0, remembered 'custom.html'), second 'custom.html' (names issued 0)")]
+    for label, kw, want in cases:
+        try:
+            got = twice(*fscene(m, **kw))
+        except D.Imprecise as e:
+            chk.undecided(R, label, str(e), chk.where(fn))
+            continue
+        chk.decide(R, label, got, {want}, '%s: %s; expected %s - a second access that issues a second name makes links and files diverge'
+                   % (label, sorted(got), want), chk.where(fn), want)
 
 
 def r133(chk, m):
-    R = chk.rule('R13.3', 'document order: cacheFilenames touches node.filename before recursing over childNodes in order, and render '
-                 'calls it before rendering', 2)
-    fn = m.func(REN, 'Renderer.cacheFilenames')
+    from . import domheap as D
+    R = chk.rule('R13.3', 'names are issued in document order before rendering: cacheFilenames, interpreted on a small tree, asks for the '
+                 'name of every node before those of its children, children in order; render calls it before rendering', 2)
+    Rend = m.cls(REN, 'Renderer')
+    Ren = m.cls(REN, 'Renderable')
+    fn = m.find_method(Rend, 'cacheFilenames')
+    need(fn is not None, 'Renderer.cacheFilenames not found')
     chk.analysed(fn)
-    body = [s for s in fn.node.body if not (isinstance(s, ast.Expr) and isinstance(s.value, ast.Constant))]
-    ok = len(body) == 2 and isinstance(body[0], ast.Assign) and text(body[0].value) == 'node.filename' and isinstance(body[1], ast.For) \
-        and text(body[1].iter) == 'node.childNodes' and [text(s) for s in body[1].body] == ['self.cacheFilenames(child)']
-    chk.verdict(R, 'cacheFilenames is a pre-order walk', ok, 'cacheFilenames must name the node first and then its children in order: %s' % [text(s)[:50] for s in body], chk.where(fn))
+    renderer, _ = fscene(m)
+    renderer.cls = Rend
+    doc = A.Obj('document', {'userdata': {}, 'config': {'files': {}}})
+
+    def node(label, level, kids=()):
+        o = A.Obj(label, {'level': level, 'nodeName': label, 'ownerDocument': doc, 'config': doc.attrs['config'], '__closed': True, 'childNodes': list(kids),
+                          'id': label, '@hasgenid': None}, cls=Ren)
+        return o
+    tree = node('doc', -10, [node('ch1', 0, [node('s11', 1, [node('par', 10)]), node('s12', 1)]), node('ch2', 0, [node('s21', 1)])])
+    try:
+        outs = frun(m, fn, {'self': renderer, 'node': tree, 'Node.renderer': renderer}, max_iter=8)
+        got = set()
+        for kind, s, v in outs:
+            got.add('%s: names issued for %s' % (kind, ' '.join(str(e[1]) for e in s.env.get('__renderlog', []) if e[0] == 'name')))
+        chk.decide(R, 'cacheFilenames is a pre-order walk', got, {'return: names issued for doc ch1 s11 s12 ch2 s21'},
+                   'on the tree doc[ch1[s11 s12] ch2[s21]]: %s; expected the order of the document' % sorted(got), chk.where(fn))
+    except D.Imprecise as e:
+        chk.undecided(R, 'cacheFilenames is a pre-order walk', str(e), chk.where(fn))
     rr = m.func(REN, 'Renderer.render')
+    chk.analysed(rr)
 
     def transfer(n, v):
-        if isinstance(n, ast.Call) and M.call_name(n) == 'self.cacheFilenames':
+        if isinstance(n, ast.Call) and M.call_name(n).endswith('cacheFilenames'):
             return 'cached'
         if isinstance(n, ast.Call) and M.call_name(n) == 'str' and n.args and text(n.args[0]) == 'document':
             return v + '|rendered'
@@ -149,34 +195,86 @@ def r134(chk, m):
 
 
 def r135(chk, m):
-    R = chk.rule('R13.5', 'a filename template means "everything in one file" only when it names a single file: no blank (several '
-                 'names, the last being the implicit wildcard) and no bracket (explicit wildcard)', 1)
-    fn = m.func(REN, 'Renderer.render')
+    from . import domheap as D
+    R = chk.rule('R13.5', 'a filename template means "everything in one file" only when it names a single file (no blank: several names, '
+                 'the last an implicit wildcard; no bracket: explicit wildcard) - Renderer.render interpreted up to the point where the '
+                 'split level is fixed', 5)
+    Rend = m.cls(REN, 'Renderer')
+    fn = m.find_method(Rend, 'render')
     chk.analysed(fn)
-    sets = [n for n in M.walk_no_nested(fn.node) if isinstance(n, ast.If) and any(isinstance(s, ast.Assign) and text(s.targets[0]) == 'self.level' for s in n.body)]
-    need(len(sets) == 1, 'Renderer.render: single-file detection not found')
-    t = sets[0].test
-    conj = [text(v) for v in t.values] if isinstance(t, ast.BoolOp) and isinstance(t.op, ast.And) else [text(t)]
-    ok = sorted(conj) == sorted(["' ' not in filenameTemplate", "'[' not in filenameTemplate"])
-    val = [text(s.value) for s in sets[0].body if isinstance(s, ast.Assign)]
-    chk.verdict(R, 'single-file detection', ok and val == ['-10'],
-                'the split level is forced to %s under %s; a multi-name template without brackets still has an implicit wildcard and '
-                'must keep splitting' % (val, conj), chk.where(fn, sets[0]))
+
+    class H(D.DomHooks):
+        def call(self, interp, node, fname, args, kwargs, state):
+            if fname in ('mixin', 'Filenames') or fname.endswith('cacheFilenames'):
+                me = state.env.get('self')
+                state.env['__level'] = me.attrs.get('level', 'unset') if isinstance(me, A.Obj) else 'TOP'
+                state.env['__exc'] = 'StopHere'
+                return A.TOP
+            if re.match(r'log\.\w+$', fname):
+                return A.NONE
+            if fname.endswith('.keys') and not args:
+                return ['x']
+            return D.DomHooks.call(self, interp, node, fname, args, kwargs, state)
+    cases = [('index', 'one file'), ('  index  ', 'one file'), ('$id', 'one file'), ('index [$id, sect$num(4)]', 'split'), ('index sect$num(4)', 'split'),
+             ('[$id, sect$num]', 'split'), ('a b', 'split')]
+    for tpl, want in cases:
+        doc = A.Obj('document', {'config': {'files': {'split-level': 2, 'filename': tpl, 'bad-chars': '', 'bad-chars-sub': ''}, 'images': {'imager': 'none', 'vector-imager': 'none'}},
+                                 'userdata': {}})
+        me = A.Obj('renderer', {'level': 'unset'}, cls=Rend)
+        it = A.Interp(model=m, scope=fn, hooks=H(m, Rend), max_iter=4, exc_edges=False, inline=2, heap=True, precise_exc=True)
+        it.h.should_inline = A.private_only
+        outs = it.run_function(fn, env={'self': me, 'document': doc, 'postProcess': None})
+        key = 'filename template %r' % tpl
+        if it.unknown_branches:
+            chk.undecided(R, key, 'test not determined: %s' % it.unknown_branches[:2], chk.where(fn))
+            continue
+        got = set()
+        for kind, s, v in outs:
+            lvl = s.env.get('__level', 'not reached')
+            got.add('one file' if lvl == -10 else ('split' if lvl == 2 else 'level %r' % (lvl,)))
+        chk.decide(R, key, got, {want}, 'with the filename template %r the document is %s; expected %s - a template with several names still '
+                   'has an implicit wildcard and must keep splitting' % (tpl, sorted(got), want), chk.where(fn))
 
 
 def r136(chk, m):
-    R = chk.rule('R13.6', 'footnotes are gathered by the nearest enclosing section that produces a file - found by climbing while the '
-                 'section has no filename (the same predicate that routes renderings to files)', 1)
+    from . import domheap as D
+    R = chk.rule('R13.6', 'footnotes are gathered by the nearest enclosing section that makes a file (interpreted on a heap of nested '
+                 'sections): each footnote is listed exactly once, by that section, however deep it sits below it, and numbered in order', 3)
     fn = m.func('plasTeX.Base.LaTeX.Sectioning', 'SectionUtils.footnotes')
     chk.analysed(fn)
-    loops = [n for n in M.walk_no_nested(fn.node) if isinstance(n, ast.While)]
-    ok = len(loops) == 1 and text(loops[0].test).replace('(', '').replace(')', '') == 's is not None and not s.filename' and \
-        [text(s) for s in loops[0].body] == ['s = s.currentSection']
-    start = [text(n.value) for n in M.walk_no_nested(fn.node) if isinstance(n, ast.Assign) and text(n.targets[0]) == 's']
-    own = [n for n in M.walk_no_nested(fn.node) if isinstance(n, ast.If) and text(n.test) == 's is self']
-    ok = ok and sorted(start) == ['f.currentSection', 's.currentSection'] and len(own) == 1 and [text(s) for s in own[0].body] == ['output.append(f)']
-    ifs_instead = [text(n.test) for n in M.walk_no_nested(fn.node) if isinstance(n, ast.If) and 'filename' in text(n.test)]
-    chk.verdict(R, 'SectionUtils.footnotes climbs to the file-producing section', ok,
-                'the owner of a footnote must be found by `while s is not None and not s.filename: s = s.currentSection` (found loops %s, '
-                'single-step tests %s): a footnote nested deeper than one level below its file would be listed nowhere'
-                % ([text(l.test) for l in loops], ifs_instead), chk.where(fn))
+    SU = m.cls('plasTeX.Base.LaTeX.Sectioning', 'SectionUtils')
+
+    def build():
+        doc = A.Obj('document', {'userdata': {}})
+
+        cfg = {'files': {'split-level': 2}}      # the configured level; which sections make a file is decided by the renderer
+
+        def sec(label, parent, filename, level):
+            return A.Obj(label, {'currentSection': parent, 'filename': filename, 'ownerDocument': doc, 'level': level, 'config': cfg}, cls=SU)
+        C = sec('chapter', None, 'c.html', 0)
+        S1 = sec('section1', C, None, 1)
+        SS = sec('subsection', S1, None, 2)
+        S2 = sec('section2', C, 's2.html', 1)
+
+        def foot(label, where):
+            return A.Obj(label, {'currentSection': where, 'mark': A.Obj('mark-' + label, {'attributes': {}})})
+        fs = [foot('f1', C), foot('f2', S1), foot('f3', SS), foot('f4', S2), foot('f5', SS)]
+        doc.attrs['userdata']['footnotes'] = fs
+        return {'chapter': C, 'section1': S1, 'subsection': SS, 'section2': S2}
+    for who, want in (('chapter', 'f1=1 f2=2 f3=3 f5=4'), ('section2', 'f4=1'), ('section1', ''), ('subsection', '')):
+        secs = build()
+        key = 'footnotes listed by %s' % who
+        it = A.Interp(model=m, scope=fn, hooks=D.DomHooks(m, SU), max_iter=10, exc_edges=False, inline=4, heap=True, precise_exc=True)
+        outs = it.run_function(fn, env={'self': secs[who]})
+        if it.imprecise or it.unknown_branches:
+            chk.undecided(R, key, '; '.join((it.imprecise + it.unknown_branches)[:3]), chk.where(fn))
+            continue
+        got = set()
+        for kind, s, v in outs:
+            if kind != 'return' or not isinstance(v, list):
+                got.add('%s %r' % (kind, v))
+            else:
+                got.add(' '.join('%s=%s' % (f.label, f.attrs['mark'].attrs['attributes'].get('num')) if isinstance(f, A.Obj) else repr(f) for f in v))
+        chk.decide(R, key, got, {want}, 'the %s (chapter c.html > section1 > subsection, section2 s2.html; footnotes f1 in the chapter, f2 in '
+                   'section1, f3 f5 in the subsection, f4 in section2) lists %s; expected {%s} - a footnote nested deeper than one level '
+                   'below its file would be listed nowhere' % (who, sorted(got), want), chk.where(fn))
